@@ -1,4 +1,4 @@
-import KV.Proofs.TxPoolReject
+import KV.Proofs.TxPoolAllInv
 /-!
 # C17 — the transaction pool only offers executable transactions and respects its limits
 
@@ -14,8 +14,9 @@ Model: `KV/Model/TxPool.lean`.  Proved here, for every list / every op sequence 
    `price ≥ old×(100+bump)/100 ∧ price > old`; otherwise the list is unchanged;
 4. `forward_ready` — `Ready start` returns a maximal gap-free nonce run, which starts at `start`
    once `Forward start` has been applied.
-5. the pool invariants over `Reach` (`pool_inv_gapfree`, `pool_inv_affordable`, `pool_inv_nonce`,
-   `pool_inv_disjoint`, …; `pool_invStatement` keeps the one unproved clause);
+5. `pool_inv : pool_invStatement` — every clause of the pool invariant over `Reach`
+   (`pool_inv_gapfree`, `pool_inv_affordable`, `pool_inv_nonce`, `pool_inv_disjoint`(`_id`),
+   `pool_inv_all_listed`: `all` = pending ⊎ queue with unique ids);
 6. `reject_noop` — in every reachable state every branch of `add` that answers with an error, of
    whatever kind, returns the pool unchanged (with the repair of F12: eligibility of a same-nonce
    replacement is tested before room is made); `reject_noop_counterexample` keeps the old order
@@ -288,16 +289,9 @@ inductive Reach (cfg : Cfg) (c : Chain) : Pool → Prop where
   | init : Reach cfg c { cfg := cfg, chain := c, gasPrice := cfg.priceLimit }
   | step {p q : Pool} (op : Op) : Reach cfg c p → q ∈ p.succs op → Reach cfg c q
 
-/-- **pool_inv** (full statement).  Proved clause by clause below (`pool_inv_gapfree`,
-`pool_inv_affordable`, `pool_inv_nonce`, `pool_inv_disjoint`; bundled in `pool_inv_partial`).
-NOT proved: the clause `all_listed` (`all` = pending ⊎ queue) — it needs (a) ids in `all` are
-unique (removal from the index is by id), (b) partition lemmas for `Forward/Filter/Ready/Cap/
-Remove` (every member of the list ends up in exactly one of the returned parts), because
-`promoteAccount`/`demoteAccount` update the index and the lists at different moments, (c) "a
-demoted transaction is always re-inserted", which follows from `reach_ndisj`, (d) queued lists are
-never strict (`Filter`'s invalids are ignored by `promoteExecutables`); and the *id* form of
-`disjoint`, which needs (a).  Both are established by the oracle on the real pool after every
-operation and by the refinement differential of this model. -/
+/-- **pool_inv** (full statement); proved as `pool_inv` at the end of this section, clause by
+clause: `pool_inv_gapfree`, `pool_inv_affordable`, `pool_inv_disjoint_id`, `pool_inv_all_listed`,
+`pool_inv_nonce`. -/
 def pool_invStatement : Prop :=
   ∀ (cfg : Cfg) (c : Chain) (p : Pool), Reach cfg c p → Inv p
 
@@ -515,8 +509,9 @@ theorem pool_inv_one_per_nonce {cfg : Cfg} {c : Chain} {p : Pool} (h : Reach cfg
     rw [← he2] at ht
     exact sorted_nonce_inj (hg.que _ _ h2).1.1 ht hu hnon
 
-/-- **pool_inv_partial.** Every clause of `Inv` except `all_listed`, in the form `Inv` states
-them (`disjoint` on transactions as values instead of ids), for every reachable state. -/
+/-- **pool_inv_partial** (kept from round 3; superseded by `pool_inv`). Every clause of `Inv` except
+`all_listed`, in the form `Inv` states them (`disjoint` on transactions as values instead of ids),
+for every reachable state. -/
 theorem pool_inv_partial {cfg : Cfg} {c : Chain} {p : Pool} (h : Reach cfg c p) :
     (∀ e ∈ p.pending, GapFree (p.stateNonce e.1) e.2.txs) ∧
     (∀ e ∈ p.pending, ∀ t ∈ e.2.txs,
@@ -525,6 +520,88 @@ theorem pool_inv_partial {cfg : Cfg} {c : Chain} {p : Pool} (h : Reach cfg c p) 
     (∀ f ∈ p.queue, ∀ t ∈ f.2.txs, p.stateNonce f.1 ≤ t.nonce ∧ t.sender = f.1) :=
   ⟨fun e he => ((pool_inv_gapfree h).1 e he).1, pool_inv_affordable h,
    fun e he f hf t ht u hu => (pool_inv_disjoint h e he f hf t ht u hu).1, (pool_inv_nonce h).2⟩
+
+/-- every reachable state: the index mirrors the lists, ids in the index are unique, queued lists
+are not strict (bundle `AL`, `KV/Proofs/TxPoolAll*.lean`) -/
+theorem reach_al {cfg : Cfg} {c : Chain} {p : Pool} (h : Reach cfg c p) : AL (strongPhi p.chain) p := by
+  induction h with
+  | init => exact AL_init cfg c
+  | @step p q op hp hq ih =>
+    cases op with
+    | addTxs txs loc =>
+      simp only [succs, List.mem_map] at hq
+      obtain ⟨r, hr, he⟩ := hq
+      subst he
+      have := AL_addTxs ih (strongPhi_PQ _) txs loc r hr
+      rw [this.good.chain]; exact this
+    | reset c' reinject =>
+      have := AL_resetReinject ih c' reinject q hq
+      rw [this.good.chain]; exact this
+    | setGasPrice pr =>
+      simp only [succs, List.mem_singleton] at hq
+      subst hq
+      have := AL_setGasPrice ih (strongPhi_PQ _) pr
+      rw [this.good.chain]; exact this
+    | expire a =>
+      simp only [succs, List.mem_singleton] at hq
+      subst hq
+      have := AL_expire ih (strongPhi_PQ _) a
+      rw [this.good.chain]; exact this
+
+theorem amGet_mem {α} {m : AMap α} {k : Nat} {v : α} (h : amGet m k = some v) : (k, v) ∈ m := by
+  simp only [amGet, Option.map_eq_some_iff] at h
+  obtain ⟨e, he, hv⟩ := h
+  have hm := List.mem_of_find?_eq_some he
+  have hk := List.find?_some he
+  simp at hk
+  have : e = (k, v) := by rw [← hk, ← hv]
+  rw [← this]; exact hm
+
+/-- **pool_inv_all_listed.** In every reachable state `all` = pending ⊎ queue: a transaction is in
+the index iff it sits in a pending or in a queued list (by `pool_inv_disjoint` not in both, by
+`pool_inv_one_per_nonce`/`pool_inv_wf` exactly once); ids in the index are unique, so the index
+holds it exactly once as well. -/
+theorem pool_inv_all_listed {cfg : Cfg} {c : Chain} {p : Pool} (h : Reach cfg c p) :
+    (∀ t, (∃ loc, (t, loc) ∈ p.all) ↔
+      ((∃ e ∈ p.pending, t ∈ e.2.txs) ∨ (∃ f ∈ p.queue, t ∈ f.2.txs))) ∧
+    (p.all.map (fun e => e.1.id)).Nodup := by
+  have hal := reach_al h
+  refine ⟨?_, hal.idu⟩
+  intro t
+  have h1 : (∃ loc, (t, loc) ∈ p.all) ↔ Idx p t := by
+    unfold Idx
+    simp only [List.mem_map]
+    constructor
+    · rintro ⟨loc, hm⟩; exact ⟨(t, loc), hm, rfl⟩
+    · rintro ⟨e, he, hx⟩; exact ⟨e.2, by rw [← hx]; exact he⟩
+  have h2 : Listed p t ↔ ((∃ e ∈ p.pending, t ∈ e.2.txs) ∨ (∃ f ∈ p.queue, t ∈ f.2.txs)) := by
+    unfold Listed
+    constructor
+    · rintro (⟨b, l, hl, hm⟩ | ⟨b, l, hl, hm⟩)
+      · exact Or.inl ⟨(b, l), amGet_mem hl, hm⟩
+      · exact Or.inr ⟨(b, l), amGet_mem hl, hm⟩
+    · rintro (⟨e, he, hm⟩ | ⟨f, hf, hm⟩)
+      · exact Or.inl ⟨e.1, e.2, amGet_of_mem hal.good.pkeys he, hm⟩
+      · exact Or.inr ⟨f.1, f.2, amGet_of_mem hal.good.qkeys hf, hm⟩
+  rw [h1, hal.iff t, h2]
+
+/-- **pool_inv_disjoint_id.** The id form of "no transaction is both pending and queued". -/
+theorem pool_inv_disjoint_id {cfg : Cfg} {c : Chain} {p : Pool} (h : Reach cfg c p) :
+    ∀ e ∈ p.pending, ∀ f ∈ p.queue, ∀ t ∈ e.2.txs, ∀ u ∈ f.2.txs, t.id ≠ u.id := by
+  intro e he f hf t ht u hu hid
+  have hal := reach_al h
+  have hpe := amGet_of_mem hal.good.pkeys he
+  have hqf := amGet_of_mem hal.good.qkeys hf
+  have : t = u := hal.listed_id (Listed_of_pending hpe ht) (Listed_of_queue hqf hu) hid
+  exact (pool_inv_disjoint h e he f hf t ht u hu).1 this
+
+/-- **pool_inv.** `pool_invStatement` holds: every state of the relational pool model reachable by
+any sequence of submissions (every allowed branch), head resets with re-injection, price changes
+and expiries satisfies all clauses of `Inv`. -/
+theorem pool_inv : pool_invStatement := by
+  intro cfg c p h
+  exact ⟨fun e he => ((pool_inv_gapfree h).1 e he).1, pool_inv_affordable h, pool_inv_disjoint_id h,
+    (pool_inv_all_listed h).1, (pool_inv_nonce h).2⟩
 
 /-- the empty pool satisfies the invariant -/
 theorem pool_inv_init (cfg : Cfg) (c : Chain) :
